@@ -215,4 +215,28 @@ CONF["C20"] = {
     "assumptions": ["go/types evaluates the constants as the compiler does"],
 }
 
+CONF["C08"] = {
+    "pkg": "c08",
+    "level": "exploration",
+    "technique": "rapid state machine over call histories (decode with/without options, chained decode, integrity, header+file_id, encode in both orders, repeat-last) on a fixed input pool; oracle = the same call made as the first library call of a fresh process",
+    "level_text": "Stateful generated search with a differential oracle across processes: before the histories run, the test binary re-executes itself once per (call, input) so that the call is the first library call of a fresh process, and records a digest of everything the call returns (decoded content, error text, Encode's bytes and the File's header/CRC afterwards). Every step of every generated history must reproduce that digest; Encode baselines are taken in two separate processes and must agree.",
+    "level_note": "Trusted: the digest covers everything observable through the public surface. record.distance derived from compressed_speed_distance is left out while finding K1 is open (K1 is reproduced by a dedicated two-call history on every run).",
+    "quick": {"checks": 150, "timeout": 400, "shrinktime": "10s", "steps": 30},
+    "thorough": {"checks": 4000, "timeout": 2400, "shards": 8, "shrinktime": "30s", "steps": 60},
+    "rule": "pool (drawn from the seed): repository files up to 6 kB, 16 generated streams, 4 streams with accumulating component sources, 4 chains, 12 generated Files. histories: rapid t.Repeat over the 6 call kinds + repeatLast with drawn inputs, each step compared with its fresh-process baseline (one evaluation per step); non-trivial = a history of at least 3 calls in which a call is preceded by a different call; distinct by fingerprint of the op list. encode-across-processes: every (File, order) in a second fresh process.",
+    "assumptions": ["a freshly started process has no library state"],
+}
+CONF["C09"] = {
+    "pkg": "c09",
+    "race": True,
+    "level": "exploration",
+    "technique": "rapid-generated goroutine programs (2-16 goroutines x 5-40 calls, GOMAXPROCS 2/4/16) executed under the Go race detector in a worker process; oracle = sequential baseline digests + empty race log (campaign A) / only finding K1 in the race log (campaign B)",
+    "level_text": "Generated concurrent programs over the C08 call vocabulary on independent readers, writers and Files, run in a race-instrumented worker process. Every call's result digest must equal the single-goroutine baseline and the race detector must stay silent. The race detector generalises each sampled schedule by happens-before, so a report does not need the unlucky interleaving itself; it is still a sample of schedules, not all interleavings.",
+    "level_note": "Trusted: Go race detector (no false positives); the program keeps inputs independent by construction (each call builds its own reader/File). Campaign A draws only inputs that do not feed the package-level component accumulators: any race report there is a violation. Campaign B draws inputs that do; a report whose two access stacks both start in uint32Accumulator.accumulate / RecordMsg.expandComponents is finding K1, anything else is a violation.",
+    "quick": {"checks": 12, "timeout": 600, "shrinktime": "20s"},
+    "thorough": {"checks": 500, "timeout": 3000, "shrinktime": "60s"},
+    "rule": "each rapid case is one program: G in 2..16 goroutines, each 5..40 calls drawn from the 6 call kinds on pool inputs (campaign A: inputs without accumulating sources, B: with), released together by a barrier under a drawn GOMAXPROCS; all programs are counted non-trivial only if distinct by fingerprint; the class 'program with overlapping same-kind calls' (measured with per-call timestamps) shows how many actually overlapped.",
+    "assumptions": ["race detector soundness for the executed schedules", "schedules are sampled by the Go scheduler"],
+}
+
 NOT_APPLICABLE = {}
